@@ -22,7 +22,8 @@ RULE = ('(a) seeded structured programs (C01 generator) made sloppy by inserting
         'walk, the jump targets with no definition in that scope, making such a jump unconditional at the head of its scope raises Unknown '
         'jump label and warning-free models never raise it; redefinition/duplicate warnings equal with multiplicity the functions, arguments and '
         'labels defined more than once in one scope. Non-trivial: the model produced >= 1 warning of a checked kind. Distinct by model.')
-ASSUMPTIONS = ['advice is applied one warning at a time to a fresh copy of the model',
+ASSUMPTIONS = [
+    'hand-built models have the scopes the language has: function statements occur at top level only (the parser rejects nested definitions; lint does not look inside them)','advice is applied one warning at a time to a fresh copy of the model',
                'runs that exceed the statement budget before or after the edit are discarded (deleting a statement shifts the abort point)']
 
 MAXS = 2500
@@ -269,8 +270,23 @@ def sloppy_source(rnd, src):
     return '\n'.join(out) + '\n'
 
 
+def _flatten_nested_functions(model):
+    """The language has no nested function definitions (the parser rejects them), and lint analyses the scopes the language has: the global
+    scope and one level of functions. A function statement inside a function body (schema-valid only by accident) is replaced by a marker."""
+    n = 0
+    for s in model['statements']:
+        if 'function' in s:
+            body = s['function']['statements']
+            for i, t in enumerate(body):
+                if 'function' in t:
+                    body[i] = c08.log_stmt('was-nested-function')
+                    n += 1
+    return n
+
+
 def sloppy_model(rnd, size):
     model = c08.random_model(rnd, size)
+    _flatten_nested_functions(model)
     # duplicate function names / duplicate arguments / labels reused across scopes are already likely; add some on purpose
     for s in model['statements']:
         if 'function' in s and rnd.random() < 0.4:
